@@ -75,8 +75,10 @@ fn c19_dictionary_index_out_of_range() {
 #[kani::stub(std::backtrace::Backtrace::capture, crate::kani_verif_support::stub_backtrace)]
 #[kani::stub(crate::column::value_reader::ReaderErrorState::set_error_fn, crate::column::value_reader::kani_verif_support_reader::stub_set_error_flag)]
 fn c10_dictionary_reprepare() {
-    let d1: [i32; 3] = kani::any();
-    let d2: [i32; 1] = kani::any();
+    // only the current dictionary's values are symbolic: the earlier ones matter through their
+    // sizes alone (symbolic earlier values made the counterexample trace run exceed 900 s)
+    let d1: [i32; 3] = [11, 12, 13];
+    let d2: [i32; 1] = [21];
     let d3: [i32; 2] = kani::any();
     let idx: u8 = kani::any();
     kani::assume(idx < 2);
